@@ -927,6 +927,7 @@ def corr_writer(ck, rxns):
                     ck.count('writer:molecule SMILES refused by the molecule parser (C01-C03; the reader raises there)')
                 if any(ch.isspace() for ch in f[0]) or 0 <= n_parsed < len(f[2]):
                     hyp_bad.append((f[0], n_parsed, len(f[2])))
+        x.fm = fm
         ft = [lst([fmol_term(f) for f in role]) for role in fm]
         cases.append(f'fmt_ok {ft[0]} {ft[1]} {ft[2]} {cstr(exp[0])} {cstr(exp[1])} {cstr(exp[2])} {cstr(exp[3])}')
         meta.append(('fmt', x.desc['idx'], x))
@@ -951,6 +952,37 @@ def corr_writer(ck, rxns):
         cases.append(f'fmt1_ok {b("!c" in sp)} {b("!x" in sp)} {ft2[0]} {ft2[1]} {ft2[2]} {cstr(e2)}')
         meta.append(('fmt1', x.desc['idx'], x, sp))
         ck.case(('fmt1', sp, e2), nontrivial=True)
+    # __eq__ / __hash__: a reaction against a role-internal rearrangement of itself, and against the next reaction
+    from chython import ReactionContainer
+    eq_pairs = []
+    usable = [x for x in rxns if getattr(x, 'fm', None) is not None][:100 if ck.tier == 'quick' else 1000]
+    for i, x in enumerate(usable):
+        rr, gg, pp = [list(r) for r in (x.rxn.reactants, x.rxn.reagents, x.rxn.products)]
+        perm = [rng.sample(range(len(r)), len(r)) for r in (rr, gg, pp)]
+        y = ReactionContainer([rr[j].copy() for j in perm[0]], [pp[j].copy() for j in perm[2]], [gg[j].copy() for j in perm[1]])
+        yfm = [[x.fm[k][j] for j in perm[k]] for k in range(3)]
+        eq_pairs.append((x.rxn, x.fm, y, yfm, 'rearranged'))
+        z = usable[(i + 1) % len(usable)]
+        eq_pairs.append((x.rxn, x.fm, z.rxn, z.fm, 'other'))
+    for a, afm, c, cfm, kind in eq_pairs:
+        try:
+            e = (a == c)
+            hh = hash(a) == hash(c)
+        except Exception as ex:
+            ck.count('eq:raises ' + type(ex).__name__)
+            continue
+        ta = tup(*[lst([fmol_term(f) for f in role]) for role in afm])
+        tc = tup(*[lst([fmol_term(f) for f in role]) for role in cfm])
+        cases.append(f'Bool.eqb (rxn_eq {ta} {tc}) {b(e)}')
+        meta.append(('eq', kind, None))
+        ck.case(('eq', kind, str(a), str(c)), nontrivial=True)
+        ck.count(f'eq:{kind}:{"equal" if e else "different"}')
+        if e and not hh:
+            ck.counterexample(f'eq-hash:{a}', 'equal reactions with different hashes', {'a': rx_repr(a), 'b': rx_repr(c)}, 'hash differs', 'same hash', '__eq__/__hash__ contract')
+    if (a_ := next((x for x in usable), None)) is not None:
+        ck.case(('eq', 'non-reaction'), nontrivial=True)
+        if (a_.rxn == str(a_.rxn)) is not False or (a_.rxn == a_.rxn.reactants) is not False:
+            ck.counterexample('eq-non-reaction', 'a reaction compares equal to a non-reaction', {'a': rx_repr(a_.rxn)}, True, False, 'isinstance test of __eq__')
     ok, failing, log = coqcases.run_cases('c15_writer', 'Graph Compose RxnSmiles', cases, extra=EXTRA, shard=max(20, len(cases) // 16 + 1))
     ck.oblige('correspondence: ReactionContainer.__format__ (per-role sort, ^1: and f: blocks, !c, !x) == Coq model (RxnSmiles.v)',
               ok and not failing, 'correspondence', log or str([meta[i][:2] for i in failing[:5]]))
@@ -965,6 +997,8 @@ def corr_writer(ck, rxns):
         ck.sample({'model_call': cases[0][:600], 'meta': repr(meta[0][:2])})
     if not ok or failing:
         for i in failing[:40]:
+            if meta[i][2] is None:
+                continue
             try:
                 search_order_free(ck, meta[i][2], random.Random(0))
                 search_roundtrip(ck, meta[i][2])
@@ -1238,6 +1272,76 @@ def corr_tokens(ck, rxns):
     return ok and not failing
 
 
+# ---- Morgan order of the condensed graph
+
+EXTRA_MORGAN = r'''From Model Require Import PyHash.
+Import ListNotations.
+Open Scope Z_scope.
+Definition DA (n c pc : Z) : datom := mkDAtom n None c false pc false.
+Definition E (o : Z) : dbond := mkDBond (Some o) (Some o).
+(* hash(atom) of every dynamic atom, Morgan.int_adjacency (hash(bond)), Morgan.atoms_order (dict in insertion order) *)
+Definition cgo_parts (c : cgr) (hs : labels) (adj : iadj) (ord : pyres labels) : list bool :=
+  [ labels_eqb (cgr_atom_labels hash63 c) hs;
+    list_eqb (pair_eqb Z.eqb labels_eqb) (cgr_int_adjacency hash63 c) adj;
+    res_eqb (py_cgr_atoms_order c) ord ].
+Definition cgo_ok c hs adj ord : bool := forallb (fun x => x) (cgo_parts c hs adj ord).
+(* the machine-integer tuple hash used for evaluation agrees with the reference definition over Z *)
+Definition h_agree (l : list Z) : bool := Z.eqb (hash63 l) (hash_ztuple l).
+'''
+
+
+def corr_morgan(ck, rxns):
+    from chython import smiles, MoleculeContainer
+    cases, meta = [], []
+    tuples = set()
+    graphs = []
+    for x in (rxns[:70] if ck.tier == 'quick' else rxns[:500]):
+        try:
+            graphs.append((('rxn', x.desc['idx']), ~x.rxn))
+        except Exception:
+            continue
+    for a, c in (('CCO', 'C=C[O-]'), ('C', 'C'), ('C', '[CH3] |^1:0|'), ('[13CH4]', '[13CH3-]'), ('c1ccccc1', 'C1=CC=CC=C1'), ('CC', 'C.C'), ('O', 'OC'),
+                 ('C[Fe+4]', 'C[Fe-4]'), ('C~C', 'CC')):
+        graphs.append((('pair', a, c), smiles(a) ^ smiles(c)))
+    graphs.append((('pair', 'empty', 'empty'), MoleculeContainer() ^ MoleculeContainer()))
+    graphs.append((('pair', 'empty', 'C'), MoleculeContainer() ^ smiles('C')))
+    for tok, h in graphs:
+        try:
+            order = h.atoms_order
+            exp = 'Ok ' + lst([tup(zraw(n), zraw(v)) for n, v in order.items()])
+        except Exception as e:
+            exp = exn_term(e)
+        hs = lst([tup(zraw(n), zraw(hash(a))) for n, a in h.atoms()])
+        adj = lst([tup(zraw(n), lst([tup(zraw(m), zraw(v)) for m, v in mb.items()])) for n, mb in h.int_adjacency.items()])
+        cases.append(f'cgo_ok {cgr_term(h)} {hs} {adj} ({exp})')
+        meta.append(tok)
+        ck.case(('cgr-morgan',) + tok, nontrivial=len(h._atoms) > 1)
+        ck.count('morgan:' + ('ranks all distinct' if exp.startswith('Ok') and len(set(order.values())) == len(order) else 'ties' if exp.startswith('Ok') else exp))
+        for _, a in h.atoms():
+            tuples.add((a.isotope or 0, a.atomic_number, a.charge, a.p_charge, int(a.is_radical), int(a.p_is_radical)))
+        for _, _, bd in h.bonds():
+            tuples.add((bd.order or 0, bd.p_order or 0))
+    for t in sorted(tuples):
+        cases.append(f'h_agree {zl(t)}')
+        meta.append(('tuple', t))
+    ok, failing, log = coqcases.run_cases('c15_morgan', 'Graph Morgan MorganFast Compose CgrMorgan', cases, extra=EXTRA_MORGAN, shard=max(10, len(cases) // 16 + 1))
+    ck.oblige('correspondence: DynamicElement.__hash__ / DynamicBond.__hash__ / Morgan.int_adjacency / Morgan.atoms_order on condensed graphs == Coq model (CgrMorgan.v over Morgan.v)',
+              ok and not failing, 'correspondence', log or str([meta[i] for i in failing[:5]]))
+    ck.extra['correspondence_cases_morgan'] = len(cases)
+    if not ok or failing:
+        # directed search: the property-level consequence (string / ranks under consistent renumbering) on the disagreeing graphs
+        idx = {x.desc['idx']: x for x in rxns}
+        for i in failing[:30]:
+            if meta[i][0] == 'rxn':
+                try:
+                    search_cgr(ck, idx[meta[i][1]], random.Random(0))
+                except Exception:
+                    pass
+        ck.unchecked('correspondence CgrMorgan model vs Morgan.atoms_order on condensed graphs', (log or '')[-1500:],
+                     [repr(meta[i]) + ' :: ' + cases[i][:300] for i in failing[:20]])
+    return ok and not failing
+
+
 def run(ck):
     ck.trusted += ['correspondence runner harness/checks/C15.py + harness/coqcases.py + harness/coqmol.py (printing live molecules / condensed graphs as Coq terms)',
                    'CachedMethods shim harness/boot.py', 'CPython 3.12.1 (set iteration orders are observed, not modelled)']
@@ -1278,6 +1382,7 @@ def run(ck):
     tied = timed('corr writer', corr_writer, ck, rxns) and tied
     tied = timed('corr reader', corr_reader, ck, rxns) and tied
     tied = timed('corr tokens', corr_tokens, ck, rxns) and tied
+    tied = timed('corr morgan', corr_morgan, ck, rxns) and tied
     timed('search', search, ck, rxns)
     ck.extra['phase_seconds'] = phases
     ck.extra['proved'] = proved
